@@ -7,7 +7,7 @@ is proved independent of l for all states (z3); every location the spec writes (
 every byte the spec loads/stores must lie in a memory cell of R(i)/W(i) for all states (z3).
 x87/MMX/SSE (COMP): explicit operands and the implicit operands of an exception list (architectural table) must be in R/W.
 """
-import sys, os, time, random, itertools, multiprocessing, traceback, binascii, collections
+import sys, os, re, time, random, itertools, multiprocessing, traceback, binascii, collections
 from vlib import common
 from vlib.common import Run, DISCHARGED, FAILED, BOUNDED_OK, UNDECIDED, DOWNGRADED, ENGINE_ERR, Ob
 
@@ -165,6 +165,10 @@ def check_simd(ins):
                     res.append(('operand', rn, 'sat', 'first operand %s is in neither set' % rn))
             else:
                 if rn not in R:
+                    # x op x with a self-cancelling integer operation gives a constant: the register is not a dependency then
+                    first = regname(ins.arg[0]) if ins.arg and not ins.arg[0].get(x86_afs.ad) else None
+                    if first == rn and re.sub(r'#', '', name) in SELF_CANCEL:
+                        continue
                     res.append(('read', rn, 'sat', 'source operand %s is not in the read set' % rn))
     for key, (rd, wr, memw) in SSE_IMPLICIT.items():
         if key in name:
@@ -175,6 +179,10 @@ def check_simd(ins):
             if memw and not Wm:
                 res.append(('write', 'mem', 'sat', '%s stores to memory at [edi] but no memory cell is in the write set' % name))
     return res, (sorted(R), sorted(W))
+
+# integer SIMD operations whose result does not depend on x when both operands are x (all zeroes / all ones); floating-point subtraction is
+# not among them (NaN, infinities)
+SELF_CANCEL = set(['pxor', 'psubb', 'psubw', 'psubd', 'psubq', 'psubsb', 'psubsw', 'psubusb', 'psubusw', 'pandn', 'pcmpeqb', 'pcmpeqw', 'pcmpeqd', 'pcmpeqq', 'pcmpgtb', 'pcmpgtw', 'pcmpgtd', 'xorps', 'pandnps'])
 
 def replay(hexbytes, clause, loc):
     from checks import C04
